@@ -174,6 +174,40 @@ class St:
             f2 = dict(st.facts)
             f2[T.mk(d)] = True
             st = st._new(facts=f2)
+        # any(c(x) for x in S if p(x)) / all(...): the quantified statement it is, over the collection the
+        # comprehension ranges over (a comprehension over a filtering comprehension is flattened first)
+        if term[0] == 'call' and term[1] in ('any', 'all') and len(term[2]) == 1 and not term[3] \
+                and isinstance(term[2][0], tuple) and term[2][0] and term[2][0][0] == 'comp':
+            comp = T.flatten_comp(term[2][0])
+            # (only over a collection that is not itself reached from the element of a loop: a statement about the
+            # requirements of *this* candidate is already carried by the `all(...)` fact, and one more fact per
+            # candidate multiplies the states of the loop around it)
+            if len(comp) == 4 and len(comp[3]) == 1 and not any(x[0] == 'elem' for x in T.subterms(comp[3][0][1])):
+                key, it, conds = comp[3][0]
+
+                def lit(c, pol=True):
+                    while c[0] == 'unop' and c[1] == 'not':
+                        c, pol = c[2], not pol
+                    return (T.mk(c), pol)
+                cl = [lit(c) for c in conds]
+                el = lit(comp[2])
+                d = None
+                if term[1] == 'any':
+                    if val:
+                        d = ('exists', it, key, frozenset({frozenset(cl + [el])}))
+                    else:
+                        d = ('forall', it, key, frozenset([frozenset({(c, not pol)}) for c, pol in cl] +
+                                                          [frozenset({(el[0], not el[1])})]))
+                else:
+                    if val:
+                        d = ('forall', it, key, frozenset([frozenset({(c, not pol)}) for c, pol in cl] +
+                                                          [frozenset({el})]))
+                    else:
+                        d = ('exists', it, key, frozenset({frozenset(cl + [(el[0], not el[1])])}))
+                if d is not None and T.mk(d)._d <= T.MAX_DEPTH:
+                    f2 = dict(st.facts)
+                    f2[T.mk(d)] = True
+                    st = st._new(facts=f2)
         # decompose conjunctions / disjunctions that are now decided
         if term[0] == 'boolop':
             if term[1] == 'and' and val:
@@ -402,7 +436,7 @@ class Analysis:
     loop_fission = True       # read a loop of independent statements as one loop per statement
     gen_cancel = False        # fork a Cancelled outcome at may-suspend awaits
     gen_bodyexc = False       # fork a BodyExc outcome at awaits of user code
-    max_inline = 4
+    max_inline = 8
 
     def want_inline(self, ip, func, fr):
         n = func.name
@@ -892,7 +926,17 @@ class Interp:
                         y = y.with_var(HEAP, (obj, tgt.attr), new)
                         r0 = self.an.on_store_name(self, s, tgt.attr, new, y, fr)
                         if r0 is not None and not isinstance(r0, list):
+                            # (the hook files the counter under its name: a local variable of the same name - `done`
+                            # next to `counts.done` - keeps its own value)
+                            key = T.mk((fr.fid, tgt.attr))
+                            local = y.vars.get(key)
                             y = r0.with_var(HEAP, (obj, tgt.attr), new)
+                            if local is not None:
+                                y = y.with_var(fr.fid, tgt.attr, local)
+                            elif key in y.vars:
+                                v = dict(y.vars)
+                                del v[key]
+                                y = y._new(vars=v)
                     r = self.an.on_store_attr(self, s, obj, tgt.attr, new, y, fr, aug=opn)
                     if r is None:
                         r = self.default_store_attr(obj, tgt.attr, y)
@@ -1012,6 +1056,12 @@ class Interp:
                     for y in lst:
                         if added:
                             f = {k: v for k, v in y.facts.items() if k not in added}
+                            if getattr(self.an, 'note_quant_drop', False) and any(
+                                    k[0] in ('forall', 'exists') and k in y.facts for k in added):
+                                # a statement about every element of a collection (derived from the emptiness of a
+                                # filtered list, from any() / all()) is forgotten here: a rule that later misses
+                                # it can tell "never tested" from "tested, then joined away"
+                                y = y.set(qdropped=True)
                             y = y._new(facts=f)
                         o.nxt.append(y)
             else:
@@ -1319,7 +1369,60 @@ class Interp:
         cache[id(s)] = synth
         return synth
 
+    def _enumerate_loop(self, s):
+        """`for i, x in enumerate(X[, start]): body` is `for x in X: i = <some index>; body` (the index is a number
+        nothing else depends on); `tuple(X)` / `list(X)` snapshots of X are iterated as X is.  Built once per loop"""
+        cache = self.__dict__.setdefault('_en_cache', {})
+        if id(s) in cache:
+            return cache[id(s)]
+        synth = None
+        it = s.iter
+
+        def snapshot_of(e):
+            # `tuple(X)` / `list(X)`: the elements of X, in the order of X (the copy matters to what mutates X
+            # meanwhile, not to what the loop sees)
+            while isinstance(e, ast.Call) and isinstance(e.func, ast.Name) and e.func.id in ('list', 'tuple') \
+                    and len(e.args) == 1 and not e.keywords and not isinstance(e.args[0], (ast.Starred, ast.GeneratorExp,
+                                                                                        ast.ListComp, ast.SetComp)):
+                e = e.args[0]
+            return e
+        if isinstance(s, ast.For) and isinstance(it, ast.Call) and isinstance(it.func, ast.Name) and it.func.id == 'enumerate' \
+                and 1 <= len(it.args) <= 2 and all(k.arg == 'start' for k in it.keywords) \
+                and isinstance(s.target, ast.Tuple) and len(s.target.elts) == 2 and isinstance(s.target.elts[0], ast.Name):
+            idx = ast.Assign(targets=[ast.Name(id=s.target.elts[0].id, ctx=ast.Store())],
+                             value=ast.Call(func=ast.Name(id='__enumerate_index__', ctx=ast.Load()), args=[], keywords=[]))
+            synth = ast.For(target=s.target.elts[1], iter=snapshot_of(it.args[0]), body=[idx] + list(s.body),
+                            orelse=list(s.orelse))
+        elif isinstance(s, ast.For) and snapshot_of(it) is not it:
+            idx = None
+            synth = ast.For(target=s.target, iter=snapshot_of(it), body=list(s.body), orelse=list(s.orelse))
+        if synth is not None and idx is None:
+            ast.copy_location(synth, s)
+            synth._parent = getattr(s, '_parent', None)
+            ast.fix_missing_locations(synth)
+            cache[id(s)] = synth
+            return synth
+        if synth is not None:
+            ast.copy_location(synth, s)
+            for n in ast.walk(idx):
+                ast.copy_location(n, s)
+            idx._parent = synth
+            synth._parent = getattr(s, '_parent', None)
+            ast.fix_missing_locations(synth)
+        cache[id(s)] = synth
+        return synth
+
     def x_For(self, s, st, fr):
+        synth = self._enumerate_loop(s)
+        if synth is not None:
+            saved = [(b, getattr(b, '_parent', None)) for b in s.body + s.orelse]
+            for b in s.body + s.orelse:
+                b._parent = synth
+            try:
+                return self.x_For(synth, st, fr)
+            finally:
+                for b, par in saved:
+                    b._parent = par
         synth = self._comp_loop(s, fr)
         if synth is not None:
             return self.x_For(synth, st, fr)
@@ -2240,8 +2343,50 @@ class Interp:
         res = []
         for x, b in self.eval(e.value, st, fr, o):
             for y, i in self.eval(e.slice, x, fr, o):
+                rows = self._decision_table(b, i, y)
+                if rows is not None:
+                    res += rows
+                    continue
                 res.append((y, T.cap(('sub', b, i), 'sub')))
         return res
+
+    def _decision_table(self, b, i, st):
+        """`{(True, True): a, (True, False): b, ...}[bool(x), bool(y)]`: a literal table whose keys are booleans (or
+        tuples of booleans), indexed by truth values - one outcome per row, under what the row says of the index"""
+        if b[0] != 'dict' or len(b[1]) < 2 or len(b[1]) % 2:
+            return None
+        n = len(b[1]) // 2
+        keys, vals = b[1][:n], b[1][n:]
+
+        def comps(k):
+            if k[0] == 'const' and isinstance(k[1], bool):
+                return (k[1],)
+            if k[0] == 'tuple' and k[1] and all(c[0] == 'const' and isinstance(c[1], bool) for c in k[1]):
+                return tuple(c[1] for c in k[1])
+            return None
+        kc = [comps(k) for k in keys]
+        if any(c is None for c in kc) or len({len(c) for c in kc}) != 1 or len(set(kc)) != len(kc):
+            return None
+        idx = list(i[1]) if i[0] == 'tuple' else [i]
+        if len(idx) != len(kc[0]):
+            return None
+        for t in idx:
+            # only what is a truth value by construction: bool(x), not x, a comparison, a constant
+            if not (t[0] == 'const' and isinstance(t[1], bool)) and not (t[0] == 'call' and t[1] == 'bool') \
+                    and not (t[0] == 'unop' and t[1] == 'not') and t[0] != 'cmp':
+                return None
+        if len(kc) != 2 ** len(idx):
+            return None         # a missing row is a KeyError on some input: leave that to the symbolic form
+        out = []
+        for c, v in zip(kc, vals):
+            y = st
+            for t, want in zip(idx, c):
+                y = y.assume(t, want)
+                if y is None:
+                    break
+            if y is not None:
+                out.append((y, v))
+        return out
 
     def e_Slice(self, e, st, fr, o):
         parts = [p for p in (e.lower, e.upper, e.step)]
@@ -2873,6 +3018,9 @@ class Interp:
 
     def can_inline(self, f, fr):
         if fr.depth >= self.an.max_inline:
+            if f.qualname not in fr.stack and self.an.want_inline(self, f, fr):
+                # a function the analysis wants to walk, met too deep: what it does is lost
+                self.__dict__.setdefault('cutoffs', set()).add(f.qualname)
             return False
         if f.qualname in fr.stack:
             return False
@@ -3021,7 +3169,7 @@ class Interp:
                 ps = ps[1:]
             for pn, a in zip(ps, call_args):
                 if isinstance(a, ast.Name) and st.var(fr.fid, a.id) is not None and a.id != 'self' \
-                        and _mutates_param(f, pn):
+                        and _mutates_param(f, pn, self.prog):
                     outs.append((pn, a.id))
 
         def leave(y):
@@ -3258,8 +3406,9 @@ def _one_shot(t):
     return False
 
 
-def _mutates_param(f, pname):
-    """f mutates the collection it receives as `pname` in place (method calls only: never rebinds the name)"""
+def _mutates_param(f, pname, prog=None, depth=0):
+    """f mutates the collection it receives as `pname` in place (method calls only: never rebinds the name) - itself,
+    or by handing it as it is to another method of its class that does"""
     c = f.__dict__.setdefault('_mutp', {}) if hasattr(f, '__dict__') else {}
     if pname in c:
         return c[pname]
@@ -3271,6 +3420,14 @@ def _mutates_param(f, pname):
                 and n.func.value.id == pname and (n.func.attr in ADDERS or n.func.attr in EXTENDERS
                                                   or n.func.attr in SCRAMBLERS):
             mut = True
+        if prog is not None and depth < 3 and f.cls is not None and isinstance(n, ast.Call) \
+                and isinstance(n.func, ast.Attribute) and isinstance(n.func.value, ast.Name) and n.func.value.id == 'self':
+            g = prog.supplier(f.cls, n.func.attr)
+            if g is not None and g is not f:
+                ps = list(g.params)[(0 if g.is_static else 1):]
+                for pn, a in zip(ps, n.args):
+                    if isinstance(a, ast.Name) and a.id == pname and _mutates_param(g, pn, prog, depth + 1):
+                        mut = True
     c[pname] = mut and not reb
     return c[pname]
 
